@@ -1,5 +1,5 @@
 (* C05 - Rejected CTAP2 requests report exactly the status code their fault calls for. *)
-From Ctap Require Import Base Schema Wire Utf8 Typed WellTyped Procs Inst Tables ProcTables Finite CborItem WireP SkipP TypedP EntriesP FramingP C11P SerP TotalP RoundTripP PrefixP FaultP ObRequestSide ObOpTables FnShapes Shapes ObShapeRequest Deps ObDeps ObShapeStrings ObShapeFilters.
+From Ctap Require Import Base Schema Wire Utf8 Typed WellTyped Procs Inst Tables ProcTables Finite CborItem WireP SkipP TypedP EntriesP FramingP C11P SerP TotalP RoundTripP PrefixP FaultP ObRequestSide ObOpTables FnShapes Shapes ObShapeRequest Deps ObDeps ObShapeStrings ObShapeFilters ObShapeTablesOp.
 Local Open Scope string_scope.
 Local Open Scope Z_scope.
 
@@ -232,7 +232,7 @@ Theorem c05_modelled_functions_unchanged_request : shapes_hold fn_shapes shapes_
 Proof. exact generated_shapes_request. Qed.
 
 (* the third-party crates the model represents by hand are pinned at the versions it was written against *)
-Theorem c05_modelled_dependencies_pinned : deps_hold lock_versions cargo_deps = true.
+Theorem c05_modelled_dependencies_pinned : deps_hold repo_lock_present lock_versions harness_lock_versions cargo_deps = true.
 Proof. exact generated_deps. Qed.
 
 (* further hand-modelled functions this property rests on *)
@@ -240,6 +240,10 @@ Theorem c05_modelled_functions_unchanged_strings : shapes_hold fn_shapes shapes_
 Proof. exact generated_shapes_strings. Qed.
 Theorem c05_modelled_functions_unchanged_filters : shapes_hold fn_shapes shapes_filters = true.
 Proof. exact generated_shapes_filters. Qed.
+
+(* lookup tables, accessors, builders and further generators this property rests on *)
+Theorem c05_modelled_functions_unchanged_tables_op : shapes_hold fn_shapes shapes_tables_op = true.
+Proof. exact generated_shapes_tables_op. Qed.
 
 Eval vm_compute in "ASSUMPTIONS c05_mapping". Print Assumptions c05_mapping.
 Eval vm_compute in "ASSUMPTIONS c05_invalid_command_status". Print Assumptions c05_invalid_command_status.
@@ -270,3 +274,4 @@ Eval vm_compute in "ASSUMPTIONS c05_member_error_propagates". Print Assumptions 
 Eval vm_compute in "ASSUMPTIONS c05_modelled_dependencies_pinned". Print Assumptions c05_modelled_dependencies_pinned.
 Eval vm_compute in "ASSUMPTIONS c05_modelled_functions_unchanged_strings". Print Assumptions c05_modelled_functions_unchanged_strings.
 Eval vm_compute in "ASSUMPTIONS c05_modelled_functions_unchanged_filters". Print Assumptions c05_modelled_functions_unchanged_filters.
+Eval vm_compute in "ASSUMPTIONS c05_modelled_functions_unchanged_tables_op". Print Assumptions c05_modelled_functions_unchanged_tables_op.
